@@ -345,6 +345,12 @@ class TermBuilder:
         leaves = b.origins(hasher_op)
         parts = []
         for lf in leaves:
+            if lf["kind"] == "call" and lf["call"].decl in ("digest::Digest::chain_update", "digest::Update::chain") and len(lf["call"].args) == 2 and depth < 12:
+                # builder style: Hasher::new().chain_update(a).chain_update(b) - the receiver's updates, then this one
+                cu = lf["call"]
+                parts += self.hasher_updates(cu.args[0], depth + 1)
+                parts.append(self.term(cu.args[1], depth + 1))
+                continue
             if lf["kind"] == "call" and lf["call"].dest and not lf["call"].dest["p"]:
                 ctor = lf["call"]
                 hl = ctor.dest["l"]
